@@ -194,6 +194,123 @@ theorem C12_exe_cached (v : Bytes) (ws : List World) (w : World) :
     exe cfg w (runExe cfg ⟨some v⟩ ws) = (⟨some v⟩, .ok v) := by
   rw [runExe_cached]; rfl
 
+/-! ### every documented branch of the front-end `exe()`, in closed form
+
+  `nat` is what the platform layer answers (`procExe`), `cl` what `cmdline()` answers; the
+  branches are those of the docstring/comments of `psutil.Process.exe()`. -/
+
+/-- "is `a0` an absolute path to an executable regular file" as the property says it -/
+def Guessable (w : World) (a0 : Bytes) : Prop :=
+  a0.head? = some 47 ∧ 0 ∉ a0 ∧ w.fs a0 = .file true
+
+/-- **branch 1: native answer.** A non-empty native answer is returned and remembered;
+    `cmdline()` is not consulted. -/
+theorem C12_exe_native (w : World) (p : Bytes) (hp : p ≠ []) (h : procExe cfg w = .ok p) :
+    exe cfg w ⟨none⟩ = (⟨some p⟩, .ok p) := by
+  have : p.isEmpty = false := by cases p <;> simp_all
+  simp [exe, h, this]
+
+/-- **branch 2: native error other than AccessDenied** (zombie, gone): propagates, nothing
+    remembered. -/
+theorem C12_exe_native_error (w : World) (e : Exc) (he : e ≠ .accessDenied)
+    (h : procExe cfg w = .error e) : exe cfg w ⟨none⟩ = (⟨none⟩, .error e) := by
+  cases e <;> simp_all [exe]
+
+/-- **branch 3: AccessDenied → guess.** If `cmdline()[0]` is an absolute path to an executable
+    regular file it is returned (NOT remembered); if there is no such guess AccessDenied is
+    re-raised; if `cmdline()` itself raises, that error is what the caller sees. -/
+theorem C12_exe_denied (w : World) (h : procExe cfg w = .error .accessDenied) :
+    (∀ a0 rest, cmdline cfg w = .ok (a0 :: rest) → Guessable w a0 →
+        exe cfg w ⟨none⟩ = (⟨none⟩, .ok a0))
+    ∧ (∀ a0 rest, cmdline cfg w = .ok (a0 :: rest) → ¬ Guessable w a0 →
+        exe cfg w ⟨none⟩ = (⟨none⟩, .error .accessDenied))
+    ∧ (cmdline cfg w = .ok [] → exe cfg w ⟨none⟩ = (⟨none⟩, .error .accessDenied))
+    ∧ (∀ e, cmdline cfg w = .error e → exe cfg w ⟨none⟩ = (⟨none⟩, .error e)) := by
+  refine ⟨?_, ?_, ?_, ?_⟩
+  · intro a0 rest hc hg
+    have := (guess_cond w.fs a0).2 hg
+    simp [exe, h, guessIt, hc, this]
+  · intro a0 rest hc hg
+    have : ¬ (isAbs a0 && isFile w.fs a0 && xOk w.fs a0) = true := fun x => hg ((guess_cond w.fs a0).1 x)
+    simp [exe, h, guessIt, hc, this]
+  · intro hc
+    simp [exe, h, guessIt, hc]
+  · intro e hc
+    simp [exe, h, guessIt, hc]
+
+/-- **branch 4: `''` (link withheld) → guess.** The guess if there is one, else `''`; also `''`
+    when `cmdline()` raises AccessDenied ("we don't want to raise AD while guessing") — all
+    three remembered; any other error of `cmdline()` propagates and nothing is remembered. -/
+theorem C12_exe_withheld (w : World) (h : procExe cfg w = .ok []) :
+    (∀ a0 rest, cmdline cfg w = .ok (a0 :: rest) → Guessable w a0 →
+        exe cfg w ⟨none⟩ = (⟨some a0⟩, .ok a0))
+    ∧ (∀ a0 rest, cmdline cfg w = .ok (a0 :: rest) → ¬ Guessable w a0 →
+        exe cfg w ⟨none⟩ = (⟨some []⟩, .ok []))
+    ∧ (cmdline cfg w = .ok [] → exe cfg w ⟨none⟩ = (⟨some []⟩, .ok []))
+    ∧ (cmdline cfg w = .error .accessDenied → exe cfg w ⟨none⟩ = (⟨some []⟩, .ok []))
+    ∧ (∀ e, e ≠ .accessDenied → cmdline cfg w = .error e →
+        exe cfg w ⟨none⟩ = (⟨none⟩, .error e)) := by
+  refine ⟨?_, ?_, ?_, ?_, ?_⟩
+  · intro a0 rest hc hg
+    have := (guess_cond w.fs a0).2 hg
+    simp [exe, h, guessIt, hc, this]
+  · intro a0 rest hc hg
+    have : ¬ (isAbs a0 && isFile w.fs a0 && xOk w.fs a0) = true := fun x => hg ((guess_cond w.fs a0).1 x)
+    simp [exe, h, guessIt, hc, this]
+  · intro hc
+    simp [exe, h, guessIt, hc]
+  · intro hc
+    simp [exe, h, guessIt, hc]
+  · intro e he hc
+    cases e <;> simp_all [exe, guessIt]
+
+/-- **C12_exe_eacces_link.** The case the branches above are for: `readlink(/proc/<pid>/exe)`
+    answers EACCES (another user's process). For every cmdline file: readable with a guessable
+    `argv[0]` → that path; otherwise AccessDenied — unless the cmdline file says the process is
+    a zombie / gone, which wins. Nothing is remembered, so a later call asks the kernel again. -/
+theorem C12_exe_eacces_link (w : World) (hd : w.dirExists = true) (hl : w.exe = .err .eacces)
+    (r : Res (List Bytes)) (hc : Spec.cmdline w = some r) :
+    exe cfg w ⟨none⟩ = (⟨none⟩,
+      match r with
+      | .ok (a0 :: _) => if a0.head? = some 47 ∧ 0 ∉ a0 ∧ w.fs a0 = .file true then .ok a0
+                         else .error .accessDenied
+      | .ok [] => .error .accessDenied
+      | .error e => .error e) := by
+  have hlink : Spec.link w w.exe = some (.error .accessDenied) := by simp [Spec.link, hd, hl]
+  have key : ∀ x rem, Spec.exeOnce w = some (x, rem) → rem = false →
+      exe cfg w ⟨none⟩ = (⟨none⟩, x) := by
+    intro x rem hx hrem
+    subst hrem
+    have := C12_exe_fallback w x false hx
+    cases x <;> simpa [remembered] using this
+  cases r with
+  | error e =>
+    exact key _ false (by simp [Spec.exeOnce, hlink, Spec.guessOf, hc]) rfl
+  | ok cl =>
+    cases cl with
+    | nil => exact key _ false (by simp [Spec.exeOnce, hlink, Spec.guessOf, hc]) rfl
+    | cons a0 rest =>
+      by_cases hg : a0.head? = some 47 ∧ 0 ∉ a0 ∧ w.fs a0 = .file true
+      · simp only [hg, and_self, if_true]
+        exact key _ false (by simp [Spec.exeOnce, hlink, Spec.guessOf, hc, hg]) rfl
+      · simp only [hg, if_false]
+        exact key _ false (by simp [Spec.exeOnce, hlink, Spec.guessOf, hc, hg]) rfl
+
+/-- **C12_cwd_exe_zombie.** A zombie has no cwd / exe: when the kernel withholds the link
+    (ENOENT/ESRCH) both raise ZombieProcess — never `''`, and `exe()` does not try to guess —
+    and nothing is remembered. -/
+theorem C12_cwd_exe_zombie (w : World) (hd : w.dirExists = true) (hz : w.zombie = true) :
+    (∀ e, e ≠ .eacces → w.cwd = .err e → cwd cfg w = .error .zombieProcess)
+    ∧ (∀ e, e ≠ .eacces → w.exe = .err e → exe cfg w ⟨none⟩ = (⟨none⟩, .error .zombieProcess)) := by
+  constructor
+  · intro e he hl
+    rw [C12_link_withheld w e hd he hl, hz]; rfl
+  · intro e he hl
+    have hlink : Spec.link w w.exe = some (.error .zombieProcess) := by
+      cases e <;> simp_all [Spec.link]
+    have := C12_exe_fallback w (.error .zombieProcess) false (by simp [Spec.exeOnce, hlink])
+    simpa [remembered] using this
+
 /-! ## name() -/
 
 /-- **C12_name_rule.** `name()` is the kernel's name, except that a name of at least 15
@@ -214,7 +331,8 @@ theorem C12_name_rule_explicit (w : World) (d : Bytes) (a0 : Bytes) (rest : List
     simp [hd, hl, this]
   · have h15 : 15 ≤ w.comm.length := by unfold commMax at hl; omega
     have hl' : ¬ w.comm.length < 15 := by omega
-    simp [hd, hc, ha, nameRule, commMax, hl', h15]
+    have hsc : Spec.cmdline w = some (.ok (a0 :: rest)) := by simp [Spec.cmdline, hd, hc, ha]
+    simp [hd, hsc, nameRule, commMax, hl', h15]
 
 /-- `base` is "what follows the last slash" -/
 theorem C12_base_characterised (dir b : Bytes) (hb : 47 ∉ b) :
@@ -223,6 +341,94 @@ theorem C12_base_characterised (dir b : Bytes) (hb : 47 ∉ b) :
   constructor
   · simp [basename, rfindIdx?_last 47 dir b hb]
   · simp [basename, rfindIdx?_none 47 b hb]
+
+/-- what `name()` makes of an error of `cmdline()`: AccessDenied / ZombieProcess → the kernel's
+    name; anything else is the caller's -/
+def nameOnError (comm : Bytes) : Exc → Res Bytes
+  | .accessDenied => .ok comm
+  | .zombieProcess => .ok comm
+  | e => .error e
+
+/-- **C12_name_when_cmdline_raises.** Whatever makes `cmdline()` raise (a denied, vanished or
+    withheld file, a zombie's empty one): a name shorter than 15 bytes never looks at it; for a
+    longer one AccessDenied and ZombieProcess are swallowed and the kernel's name is returned,
+    any other error (the process is gone) propagates. -/
+theorem C12_name_when_cmdline_raises (w : World) (e : Exc) (hd : w.dirExists = true)
+    (h : cmdline cfg w = .error e) :
+    name cfg w = if w.comm.length < 15 then .ok w.comm else nameOnError w.comm e := by
+  rw [cfg_good] at h ⊢
+  by_cases hl : w.comm.length < 15
+  · have : ¬ 15 ≤ w.comm.length := by omega
+    simp [name, procName, hd, nameLen_good, nameMinLen_good, this, hl]
+  · have h15 : 15 ≤ w.comm.length := by omega
+    cases e <;> simp [name, procName, hd, nameLen_good, nameMinLen_good, h15, hl, h, nameOnError]
+
+/-- **C12_name_zombie_or_denied.** A process whose cmdline cannot be had — EACCES on the file, or
+    a zombie (empty file, or ANY error on it) — still has a name: the kernel's, of any length
+    (15 bytes included), both by the specification and by the code. -/
+theorem C12_name_zombie_or_denied (w : World) (hd : w.dirExists = true)
+    (h : w.cmdline = .err .eacces
+          ∨ (w.zombie = true ∧ (w.cmdline = .data [] ∨ ∃ e, w.cmdline = .err e))) :
+    Spec.name w = some (.ok w.comm) ∧ name cfg w = .ok w.comm := by
+  have hs : Spec.name w = some (.ok w.comm) := by
+    unfold Spec.name
+    by_cases hl : w.comm.length < commMax
+    · simp [hd, hl]
+    · rcases h with h | ⟨hz, h | ⟨e, h⟩⟩
+      · simp [hd, hl, Spec.cmdline, h, fileErr]
+      · simp [hd, hl, Spec.cmdline, h, hz, cmdlineOf]
+      · cases e <;> simp [hd, hl, Spec.cmdline, h, hz, fileErr]
+  exact ⟨hs, C12_name_rule w _ hs⟩
+
+/-- a live process whose cmdline file answers ESRCH has died in the meantime: a long name
+    cannot be completed and NoSuchProcess propagates (it is NOT mistaken for a zombie) -/
+theorem C12_name_process_gone (w : World) (hd : w.dirExists = true) (hz : w.zombie = false)
+    (hc : w.cmdline = .err .esrch) (h15 : 15 ≤ w.comm.length) :
+    name cfg w = .error .noSuchProcess := by
+  apply C12_name_rule
+  have : ¬ w.comm.length < commMax := by unfold commMax; omega
+  simp [Spec.name, hd, this, Spec.cmdline, hc, fileErr, hz]
+
+/-- **C12_file_errors.** OS errors on the cmdline / environ file itself while `/proc/<pid>`
+    exists: EACCES → AccessDenied; ESRCH → NoSuchProcess, ZombieProcess for a zombie; ENOENT on
+    a zombie → ZombieProcess. -/
+theorem C12_file_errors (w : World) (e : Err) (x : Exc) (hd : w.dirExists = true)
+    (hx : fileErr w e = some x) :
+    (w.cmdline = .err e → cmdline cfg w = .error x)
+    ∧ (w.environ = .err e → environ cfg w = .error x) := by
+  rw [cfg_good]
+  constructor
+  · intro hc
+    exact cmdline_sound w _ (by simp [Spec.cmdline, hd, hc, hx])
+  · intro hc
+    exact environ_sound w _ (by simp [Spec.environ, hd, hc, hx])
+
+/-! ## username() / terminal(): who a zombie is -/
+
+/-- **C12_identity_spec.** `username()` is the user-database name of the real uid (the uid in
+    decimal when the database has none), `terminal()` the device whose number is `tty_nr` (or
+    `None`); NoSuchProcess once `/proc/<pid>` is gone. -/
+theorem C12_identity_spec (w : World) :
+    (∀ r, Spec.username w = some r → username w = r)
+    ∧ (∀ r, Spec.terminal w = some r → terminal w = r) := by
+  constructor
+  · intro r h
+    cases hd : w.dirExists <;> simp [Spec.username, hd] at h <;> rw [← h]
+    · simp [username, procUid, hd]
+    · cases hu : w.users w.uid <;> simp [username, procUid, hd, hu]
+  · intro r h
+    cases hd : w.dirExists <;> simp [Spec.terminal, hd] at h <;> rw [← h] <;>
+      simp [terminal, procTty, hd]
+
+/-- **C12_zombie_identity.** A zombie still has an owner and a controlling terminal: the two
+    calls never raise ZombieProcess, and answer exactly as for the same process alive. -/
+theorem C12_zombie_identity (w : World) :
+    username { w with zombie := true } = username { w with zombie := false }
+    ∧ terminal { w with zombie := true } = terminal { w with zombie := false }
+    ∧ username w ≠ .error .zombieProcess ∧ terminal w ≠ .error .zombieProcess := by
+  refine ⟨rfl, rfl, ?_, ?_⟩
+  · cases hd : w.dirExists <;> cases hu : w.users w.uid <;> simp [username, procUid, hd, hu]
+  · cases hd : w.dirExists <;> simp [terminal, procTty, hd]
 
 /-! ## every call, every history -/
 
@@ -257,6 +463,59 @@ theorem C12_call_refines (hist : List (World × Call)) (w : World) (c : Call) (o
     simp only [Spec.call, Option.map_eq_some_iff] at h
     obtain ⟨r, hr, ho⟩ := h
     rw [← ho, cfg_good]; simp [step, name_sound w r hr]
+  | username =>
+    simp only [Spec.call, Option.map_eq_some_iff] at h
+    obtain ⟨r, hr, ho⟩ := h
+    rw [← ho]; simp [step, (C12_identity_spec w).1 r hr]
+  | terminal =>
+    simp only [Spec.call, Option.map_eq_some_iff] at h
+    obtain ⟨r, hr, ho⟩ := h
+    rw [← ho]; simp [step, (C12_identity_spec w).2 r hr]
+
+/-! ## the same calls inside `oneshot()` (and therefore via `as_dict()`) -/
+
+/-- **C12_oneshot_same_answers.** Inside a `oneshot()` block every call answers exactly as it
+    would outside for the world in which the block-cached sources (`stat`: name, tty_nr;
+    `status`: real uid) still read as at their FIRST read in the block and everything else
+    (cmdline, environ, the links, the file system, the zombie test) reads as it does NOW. In
+    particular: an empty block changes no answer, and a warm block in an unchanged world
+    changes no answer. -/
+theorem C12_oneshot_same_answers (b : Block) (st : St) (w : World) (c : Call)
+    (hd : w.dirExists = true) :
+    stepIn cfg b st w c = step cfg st (b.view w) c
+    ∧ stepIn cfg Block.empty st w c = step cfg st w c
+    ∧ (b.stat = none ∨ b.stat = some (w.comm, w.tty) → b.uid = none ∨ b.uid = some w.uid →
+        stepIn cfg b st w c = step cfg st w c) := by
+  have hview : stepIn cfg b st w c = step cfg st (b.view w) c := by
+    cases c <;> try rfl
+    · obtain ⟨bs, bu⟩ := b
+      cases bs with
+      | none => rfl
+      | some p =>
+        obtain ⟨n, t⟩ := p
+        have hc : cmdline cfg (Block.view ⟨some (n, t), bu⟩ w) = cmdline cfg w := rfl
+        show (st, Out.str (nameIn cfg ⟨some (n, t), bu⟩ w))
+          = (st, Out.str (name cfg (Block.view ⟨some (n, t), bu⟩ w)))
+        unfold nameIn name
+        rw [hc]
+        simp [procNameIn, procName, Block.view, hd]
+    · obtain ⟨bs, bu⟩ := b
+      cases bu with
+      | none => rfl
+      | some u => simp [stepIn, step, usernameIn, username, procUidIn, procUid, Block.view, hd]
+    · obtain ⟨bs, bu⟩ := b
+      cases bs with
+      | none => rfl
+      | some p => obtain ⟨n, t⟩ := p; simp [stepIn, step, terminalIn, terminal, procTtyIn, procTty, Block.view, hd]
+  refine ⟨hview, ?_, ?_⟩
+  · cases c <;> rfl
+  · intro h1 h2
+    rw [hview]
+    have : b.view w = w := by
+      obtain ⟨bs, bu⟩ := b
+      cases w
+      rcases h1 with h1 | h1 <;> rcases h2 with h2 | h2 <;> cases h1 <;> cases h2 <;> rfl
+    rw [this]
 
 /-! ## Non-vacuity, and the two defects re-found (why `cfg_good` matters) -/
 
